@@ -191,13 +191,85 @@ def cfgd(ctx, prog):
 cfgd.configs = ("dbg",)
 
 
+# ---------------------------------------------------------------------------------------------
+# RCB-user: guards held across update handlers vs. the API a handler may call
+
+def rcb_user(ctx, prog):
+    R = "C04.RCB-user"
+    ctx.rule(R, "no RefCell guard that is alive while an update handler runs (status RunningOnUpdateHandlers, where "
+                "every public call except stabilise is legal) guards a cell that the public API borrows in a "
+                "conflicting mode")
+    import re
+    from .c07 import BETWEEN_STABILISES
+    from .callgraph import reachable, edges
+    from .guards import guards_in
+    from .usercalls import user_calls
+    api_pats = list(BETWEEN_STABILISES) + [r"^incremental::public::WeakState::.*$", r"^incremental::state::State::unsubscribe$"]
+    entries = sorted({f for f in prog.fns for pat in api_pats if re.search(pat, f)})
+    if len(entries) < 40:
+        ctx.missing(R, "public API entry points")
+        return
+    reach_api = reachable(prog, entries)
+    api_borrows = {}
+    for a in accesses(prog):
+        if (a.fn.path in reach_api or a.fn.root in reach_api) and a.kind in ("borrow", "borrow_mut", "replace", "take"):
+            api_borrows.setdefault(a.field, {}).setdefault("mut" if a.kind != "borrow" else "shr", a)
+    # which functions may (transitively) run an update handler
+    E = edges(prog)
+    runs = {u.site.fn.path for u in user_calls(prog) if u.role == "update_handler"}
+    changed = True
+    while changed:
+        changed = False
+        for f in prog.fns:
+            if f in runs:
+                continue
+            if any(c in runs for c in E.get(f, ())):
+                runs.add(f)
+                changed = True
+    n = 0
+    for F in prog.fns.values():
+        if F.crate != "incremental" or F.path not in runs:
+            continue
+        for g in guards_in(prog, F):
+            live = g.live_blocks()
+            hit = None
+            for t in F.calls():
+                if t.bb not in live:
+                    continue
+                tg = prog.call_targets(t)
+                is_user = any(u.site is t or (u.site.fn is F and u.site.bb == t.bb) for u in user_calls(prog)
+                              if u.role == "update_handler")
+                if is_user or any(T.path in runs for T in tg):
+                    hit = t
+                    break
+            if hit is None:
+                continue
+            n += 1
+            ctx.site(R, F, "%r alive across %s" % (g, q.short_path(hit.callee or "handler")))
+            modes = api_borrows.get(g.field, {})
+            conflict = None
+            if g.mutable and modes:
+                conflict = modes.get("mut") or modes.get("shr")
+            elif not g.mutable and "mut" in modes:
+                conflict = modes["mut"]
+            inst = "%s:%s" % (g.field.rsplit("::", 1)[-1], "RefMut" if g.mutable else "Ref")
+            if conflict is None:
+                ctx.ok(R, inst, "not borrowed in a conflicting mode by any handler-callable API")
+            else:
+                ctx.fail(R, inst, "%s holds %s on %s while update handlers run, and the handler-callable API borrows the "
+                         "same cell in %s (bb%d): a handler that calls it on the object being notified panics with "
+                         "`already borrowed`" % (F.short, "RefMut" if g.mutable else "Ref", g.field,
+                                                  conflict.fn.short, conflict.bb), fn=F, span=g.call.span)
+    ctx.floor(R, n, 4)
+
+
 def guard_bypass(ctx, prog):
     from .c02 import guard_bypass as gb
     gb(ctx, prog, "C04.GUARD-bypass")
 
 
 for _f, _id in ((weak_core, "C04.WEAK"), (weak_map, "C04.WEAK-map"), (rcb, "C04.RCB-alias"), (cfgd, "C04.CFGD"),
-                (guard_bypass, "C04.GUARD-bypass")):
+                (guard_bypass, "C04.GUARD-bypass"), (rcb_user, "C04.RCB-user")):
     _f.rule_id = _id
 
-RULES = [weak_core, weak_map, rcb, cfgd, guard_bypass]
+RULES = [weak_core, weak_map, rcb, cfgd, guard_bypass, rcb_user]
